@@ -209,6 +209,28 @@ pub fn gen_case(src: &mut Src, with_resize: bool) -> Case {
     let limit = if with_resize && src.chance(2, 3) { None } else { gen::limit(src) };
     let mut case = Case::new(cols, rows, limit);
     case.calls.push(Call::FeedStr(gen::input(src, &g, 14)));
+    // the parked alternate buffer is only brought up to date when it is shown: an earlier
+    // short excursion (entered, scrolled and left inside one call) and resizes while the
+    // primary is showing must not show through at the next entry
+    if src.chance(1, 3) {
+        let m = *src.pick(&[47usize, 1047, 1049]);
+        let mut s = format!("{}\x1b[?{}h", *src.pick(&["", "\x1b[44m"]), m);
+        for k in 0..src.range(0, rows + 3) {
+            s.push_str(&format!("old{}\n", k));
+        }
+        s.push_str(&format!("\x1b[?{}l", m));
+        case.calls.push(Call::FeedStr(s));
+    }
+    if src.chance(1, 2) {
+        let (c, r) = gen::resize_target(src, &g);
+        g.cols = c;
+        g.rows = r;
+        case.calls.push(Call::Resize(c, r));
+        if src.chance(1, 2) {
+            case.calls.push(Call::FeedStr(gen::input(src, &g, 4)));
+        }
+    }
+    let (cols, rows) = (g.cols, g.rows);
     let pen = *src.pick(&["", "\x1b[41m", "\x1b[1;32m", "\x1b[7m"]);
     let enter = *src.pick(&[47usize, 1047, 1049, 1049]);
     let leave = if src.chance(1, 2) { enter } else { *src.pick(&[47usize, 1047, 1049]) };
@@ -233,6 +255,20 @@ pub fn gen_case(src: &mut Src, with_resize: bool) -> Case {
         }
     }
     case.calls.push(Call::FeedStr(format!("\x1b[?{}l", leave)));
+    // a second excursion, possibly after a resize on the primary screen
+    if src.chance(1, 3) {
+        if src.chance(1, 2) {
+            let (c, r) = gen::resize_target(src, &ga);
+            ga.cols = c;
+            ga.rows = r;
+            case.calls.push(Call::Resize(c, r));
+        }
+        let pen = *src.pick(&["", "\x1b[42m", "\x1b[4;35m", "\x1b[m"]);
+        let m = *src.pick(&[47usize, 1047, 1049]);
+        case.calls.push(Call::FeedStr(format!("{}\x1b[?{}h", pen, m)));
+        case.calls.push(Call::FeedStr(gen::input(src, &ga, 4)));
+        case.calls.push(Call::FeedStr(format!("\x1b[?{}l", *src.pick(&[47usize, 1047, 1049]))));
+    }
     case
 }
 
@@ -273,8 +309,15 @@ fn enum_pairs() -> Vec<Case> {
                 for leave in [47, 1047, 1049] {
                     for p in primaries {
                         for e in excursions {
-                            for rs in [0usize, 1, 2, 3] {
-                                let mut c = Case::new(cols, rows, limit).feed(p).feed(format!("\x1b[45m\x1b[?{}h", enter)).feed(e);
+                            for rs in [0usize, 1, 2, 3, 4, 5] {
+                                let mut c = Case::new(cols, rows, limit).feed(p);
+                                // 4, 5: an earlier one-call excursion that scrolled, then a resize
+                                // while the primary is showing, before the entry that is judged
+                                if rs >= 4 {
+                                    c = c.feed("\x1b[?1047h1\n2\n3\n4\n5\n6\x1b[?1047l");
+                                    c.calls.push(if rs == 4 { Call::Resize(cols + 3, rows + 2) } else { Call::Resize(cols - 2, rows) });
+                                }
+                                let mut c = c.feed(format!("\x1b[45m\x1b[?{}h", enter)).feed(e);
                                 match rs {
                                     1 => c.calls.push(Call::Resize(cols - 2, rows + 1)),
                                     2 => {
